@@ -7,7 +7,7 @@
                       return (and with how many tests counted) or raise `TypeError` / `IndexError`.
 
   The duration guard of `from_suites` is a finite decision: if the code's decision changes (e.g. the repair
-  `fixes/D32-from-suites-unfinished-duration.diff` is applied, or results without end time are dropped from the
+  `fixes/D34-from-suites-unfinished-duration.diff` is applied, or results without end time are dropped from the
   count), `decide` fails here.
 -/
 import LccModel.Model.FilteredViews
